@@ -264,6 +264,33 @@ func check(c Case) vk.Verdict {
 			return vk.Failf("round trip: cookie %q set to %q comes back as %q (wire %q)", ck.Name, ck.Value, seen[ck.Name], wire[ck.Name])
 		}
 	}
+	// 2b. the cookies this instance issued (and has by now accepted itself) mean nothing to an instance with another key
+	if !bytes.Equal(c.Key, c.OtherKey) {
+		appB := fiber.New()
+		seenB := map[string]string{}
+		appB.Use(encryptcookie.New(encryptcookie.Config{Key: base64.StdEncoding.EncodeToString(c.OtherKey), Except: c.Except}))
+		appB.Get("/get", func(ctx fiber.Ctx) error {
+			for _, ck := range c.Cookies {
+				seenB[ck.Name] = strings.Clone(ctx.Cookies(ck.Name))
+			}
+			return nil
+		})
+		var parts []string
+		for _, ck := range c.Cookies {
+			if !strings.ContainsAny(ck.Name, "=; ") {
+				parts = append(parts, ck.Name+"="+wire[ck.Name])
+			}
+		}
+		vk.Do(appB, "GET", "/get", "Cookie", strings.Join(parts, "; "))
+		for _, ck := range c.Cookies {
+			if excepted(ck.Name, c.Except) || strings.ContainsAny(ck.Name, "=; ") || len(ck.Value) == 0 {
+				continue
+			}
+			if seenB[ck.Name] != "" {
+				return vk.Failf("cookie %q issued (and accepted) under one key reaches the handler of an instance configured with another key as %q, want empty", ck.Name, seenB[ck.Name])
+			}
+		}
+	}
 	// 3. values not issued by the server under the current key
 	tagRejected, sameAccepted, b64Rejected := 0, 0, 0
 	try := func(name, orig, forged, what string) string {
